@@ -408,6 +408,12 @@ class DS:
             self.n_rec_distinct = con.execute(
                 'SELECT count(*) FROM (SELECT DISTINCT zeta_number FROM recession_interval_zeta)').fetchone()[0]
             (self.zmin, self.zmax) = con.execute('SELECT min(zeta_mm), max(zeta_mm) FROM water_level').fetchone()
+            # the measured master curves recomputed from the BASE tables written by set-zeta-grid / rise /
+            # recession (no view, no discrete_zeta): rows (level mm, value, number of rises / recessions)
+            self.base_rise = base_curve(con, 'rising_interval', 'rain_depth_offset_mm', 'rising_interval_zeta',
+                                        'mean_crossing_depth_mm')
+            self.base_rec = base_curve(con, 'recession_interval', 'time_offset_s', 'recession_interval_zeta',
+                                       'mean_crossing_time')
         finally:
             con.close()
         # measured values in the order of the control file: rise by level ascending,
@@ -416,6 +422,41 @@ class DS:
         self.rise_vals = [v for _, v in self.rise_rows]
         self.rec_levels = [z for z, _ in reversed(self.rec_rows)]
         self.rec_vals = [float(v) / (3600 * 24) for _, v in reversed(self.rec_rows)]
+
+
+def base_curve(con, series_table, offset_col, crossing_table, value_col):
+    """Master curve from the base tables: per level number, the mean over the series that cross it of
+    (offset of the series + its crossing value); level = number * grid step. By level ascending."""
+    steps = [float(r[0]) for r in con.execute('SELECT grid_interval_mm FROM zeta_grid')]
+    if len(steps) != 1:
+        return []
+    offsets = {e: float(o) for e, o in con.execute('SELECT start_epoch, %s FROM %s' % (offset_col, series_table))}
+    by_level = {}
+    for epoch, number, value in con.execute('SELECT start_epoch, zeta_number, %s FROM %s' % (value_col, crossing_table)):
+        by_level.setdefault(int(number), []).append(offsets[epoch] + float(value))
+    return [(n * steps[0], math.fsum(v) / len(v), len(v)) for n, v in sorted(by_level.items())]
+
+
+def close(a, b):
+    return a is not None and abs(a - b) <= 1e-9 * max(1.0, abs(a), abs(b))
+
+
+def levels_without_value(base, values, start=0):
+    """base: rows (level, value, n) in the order of the observations; values: what a file holds, in its
+    order, read from position `start`.  Returns the levels of the master curve that have no entry in
+    `values` (walking both in order; an entry belongs to a level when it is that level's measured value)
+    and the position reached."""
+    k, missing = start, []
+    for z, v, n in base:
+        if k < len(values) and close(values[k], v):
+            k += 1
+        else:
+            missing.append((z, n))
+    return missing, k
+
+
+def name_levels(missing, what):
+    return ', '.join('level %r mm (crossed by %d %s)' % (z, n, what) for z, n in missing)
 
 
 def relation(ds):
@@ -428,6 +469,19 @@ def relation(ds):
 # shape of the saw-tooth that mostly gives the wanted relation (gen_pest.FALL_FRACTIONS)
 TARGETS = [None, 'rise>recession', 'rise<recession', 'rise=recession']
 SHAPE_FOR = {None: None, 'rise>recession': 'shallow', 'rise<recession': 'deep', 'rise=recession': None}
+
+
+def gen_shared_top_dataset(rng, tag, out, top):
+    """A dataset whose storms all end inside ONE cell of the level grid (harness.gen_pest.gen_shared_top_record):
+    the grid line under the record maximum is a level of both master curves, crossed by every rise."""
+    for _ in range(30):
+        rec = GP.gen_shared_top_record(rng, top=top)
+        rec['et'] = [rng.choice([0.125, 0.0, 0.25, 0.0625]) for _ in range(5)]
+        ds = DS(rec, tag)
+        if ds.error is None and len(ds.rise_rows) >= 2 and len(ds.rec_rows) >= 2:
+            return ds
+        out.count('dataset-rejected')
+    raise RuntimeError('no shared-top dataset carries the workflow')
 
 
 def gen_dataset(rng, tag, out, want=None):
@@ -565,6 +619,7 @@ def oracle_files(ds, par, lines, out, coq, case, consistent):
         if inames != onames:
             out.violation('oracle', '%s: the instruction file reads observations %s.. but the control file lists '
                           '%s.. (%d vs %d)' % (which, inames[:3], onames[:3], len(inames), len(onames)), case=case)
+        oracle_master_levels(ds, which, obs, out, case)
         if len(obs) != len(meas):
             out.violation('oracle', '%s control file has %d observations, the master curves have %d levels'
                           % (which, len(obs), len(meas)), case=case)
@@ -589,6 +644,33 @@ def oracle_files(ds, par, lines, out, coq, case, consistent):
                       'of levels of the master curves (%d, %d): declared NOBS and instruction lines would '
                       'not match the observation lines' % (ds.n_rise_distinct, ds.n_rec_distinct,
                                                            len(ds.rise_rows), len(ds.rec_rows)), case=case)
+
+
+def oracle_master_levels(ds, which, obs, out, case):
+    """The control file's observations against the measured master curves recomputed from the base tables:
+    one observation per level of the rise curve (ascending), then - curves - one per level of the recession
+    curve (descending, days); a level of a curve that has no observation is named."""
+    out.count('judged-against-base-tables')
+    vals = []
+    for o in obs:
+        try:
+            vals.append(float(o[1]))
+        except (ValueError, IndexError):
+            vals.append(None)
+    mrise, k = levels_without_value(ds.base_rise, vals)
+    mrec = []
+    if which == 'curves':
+        mrec, k = levels_without_value([(z, v / (3600 * 24), n) for z, v, n in reversed(ds.base_rec)], vals, k)
+    if mrise or mrec or k != len(vals):
+        out.violation('oracle', '%s control file: %d observation lines for master curves of %d rise levels%s '
+                      '(recomputed from the tables rising_interval_zeta / recession_interval_zeta, rising_interval / '
+                      'recession_interval, zeta_grid); without an observation holding its measured value: %s%s; '
+                      'observation lines that are no level\'s measured value: %d'
+                      % (which, len(obs), len(ds.base_rise),
+                         ' and %d recession levels' % len(ds.base_rec) if which == 'curves' else '',
+                         'rise curve: ' + (name_levels(mrise, 'rises') or 'none'),
+                         '; recession curve: ' + (name_levels(mrec, 'recessions') or 'none') if which == 'curves' else '',
+                         len(vals) - k), case=case)
 
 
 def oracle_alignment(ds, which, ins, out, case):
@@ -740,6 +822,17 @@ def oracle_end_to_end(ds, parfile, par, lines, out, coq, case):
     out.evaluations += 1
     rise_rows, rise_obs = sims['rise']
     rec_rows, rec_obs = sims['recession']
+    for name, rows, base, what in (('rise', rise_rows, ds.base_rise, 'rises'),
+                                   ('recession', rec_rows, ds.base_rec, 'recessions')):
+        have = set(float(r[0]) for r in rows)
+        want = set(z for z, _, _ in base)
+        missing = [(z, n) for z, _, n in base if not any(abs(z - h) <= 1e-9 * max(1.0, abs(z)) for h in have)]
+        extra = sorted(h for h in have if not any(abs(z - h) <= 1e-9 * max(1.0, abs(z)) for z in want))
+        if missing or extra:
+            out.violation('oracle', '`spowtd simulate %s` tabulates %d levels, the measured master %s curve '
+                          '(recomputed from the base tables) has %d; not tabulated: %s; tabulated but not in the '
+                          'curve: %r' % (name, len(rows), name, len(base), name_levels(missing, what) or 'none',
+                                         extra), case=case)
     for name, text, ins, rows, levels, meas in (
             ('rise', rise_obs, lines.get(('rise', 'ins')), rise_rows, ds.rise_levels, ds.rise_vals),
             ('curves', rise_obs + rec_obs, lines.get(('curves', 'ins')), rise_rows + rec_rows,
@@ -919,11 +1012,19 @@ KINDS = [('spline', 'spline'), ('peatclsm', 'peatclsm'), ('spline', 'spline'), (
          ('spline', 'spline'), ('peatclsm', 'spline'), ('spline', 'peatclsm')]
 
 
-def check_dataset(ds_seed, tag, npar, nsane, nprinted, out, coq, only=None):
+def check_dataset(ds_seed, tag, npar, nsane, nprinted, out, coq, only=None, top=None):
     """only = None (everything), ('pair', j) or ('printed',): the part a replayed case belongs to
-    (the dataset and the parameter files are regenerated from ds_seed either way)."""
-    rng = C.rng_for(ds_seed, PROP, 'dataset')
-    ds = gen_dataset(rng, tag, out, want=TARGETS[ds_seed % len(TARGETS)])
+    (the dataset and the parameter files are regenerated from ds_seed either way).
+    top = 'positive' / 'surface' / 'negative': a shared-top dataset (its own random stream)."""
+    if top:
+        ds = gen_shared_top_dataset(C.rng_for(ds_seed, PROP, 'dataset-top'), tag, out, top)
+        out.count('dataset:shared-top:%s' % top)
+        t = ds.base_rise[-1] if ds.base_rise else None
+        if t and t[2] >= 2 and t[0] < ds.zmax and t[0] + ds.rec['grid_mm'] > ds.zmax:
+            out.count('dataset:top grid line under the record maximum belongs to the rise curve')
+    else:
+        rng = C.rng_for(ds_seed, PROP, 'dataset')
+        ds = gen_dataset(rng, tag, out, want=TARGETS[ds_seed % len(TARGETS)])
     out.count('dataset')
     out.count('levels:' + relation(ds))
     out.count('levels', len(ds.rise_rows) + len(ds.rec_rows))
@@ -936,6 +1037,8 @@ def check_dataset(ds_seed, tag, npar, nsane, nprinted, out, coq, only=None):
         prng = C.rng_for(ds_seed, PROP, 'par', j)
         text = gen_params(prng, sy_k, tr_k, sane=(ds.zmin, ds.zmax) if sane else None)
         case = dict(level='pair', ds_seed=ds_seed, j=j, npar=npar, nsane=nsane)
+        if top:
+            case['top'] = top
         if only is None or only == ('pair', j):
             check_pair(ds, text, out, coq, case, sane)
         if sane and last is None:
@@ -947,6 +1050,8 @@ def check_dataset(ds_seed, tag, npar, nsane, nprinted, out, coq, only=None):
         ins, exc = pestfile(ds, 'curves', parfile, 'ins')
         if exc is None:
             pcase = dict(level='printed', ds_seed=ds_seed, npar=npar, nsane=nsane, nprinted=nprinted)
+            if top:
+                pcase['top'] = top
             guarded(out, pcase, 'printed values: simulate with chosen floats read through the curves instruction file',
                     oracle_printed_values, ds, parfile, ins.split(os.linesep), C.rng_for(ds_seed, PROP, 'printed'),
                     out, coq, pcase, nprinted)
@@ -965,12 +1070,18 @@ def run(ctx, out):
     for i in range(nds):
         ds = check_dataset(seed * 1000 + i, 'ds%d' % i, npar, 2, 3 if tier == 'quick' else 6, out, coq)
         first = first or ds
+    # records whose top grid line is shared by all rises: above, at and below the surface
+    for i, top in enumerate(GP.TOPS if tier == 'quick' else GP.TOPS * 4):
+        check_dataset(seed * 1000 + 500 + i, 'top%d' % i, 4, 2, 0, out, coq, top=top)
     check_golden(out, coq)
     run_coq(coq, out)
     out.rule = ('Pairs (dataset, parameter file): datasets = synthetic saw-tooth records carried through the real CLI '
                 '(load..rise, recession), parameter files = spline / peatclsm / the two mixed forms, 2-9 knots, '
                 'values 1e-15..1e16 incl. texts such as 1.0e-05 that str() prints without a dot; the first 2 files '
-                'per dataset are accepted by the simulator (end-to-end runs of `simulate`). Non-trivial: a '
+                'per dataset are accepted by the simulator (end-to-end runs of `simulate`); plus datasets whose storms '
+                'all end inside one grid cell above / at / below the surface. Observation lines and simulate tables '
+                'are also judged against the master curves recomputed from the base tables (a level without an '
+                'observation is named). Non-trivial: a '
                 'consistent pair whose six files were compared (distinct by dataset and file text), an '
                 'end-to-end run whose every extracted value equals the simulated one, a printed finite float '
                 'of <= 22 characters extracted exactly (distinct by value).')
@@ -1001,6 +1112,6 @@ def replay(case, out):
     else:
         only = ('printed',) if lvl == 'printed' else ('pair', case['j']) if 'j' in case else None
         check_dataset(case['ds_seed'], 'replay', case.get('npar', 10), case.get('nsane', 2),
-                      case.get('nprinted', 3), out, coq, only=only)
+                      case.get('nprinted', 3), out, coq, only=only, top=case.get('top'))
     run_coq(coq, out)
     out.violations = [v for v in out.violations if v.get('signature') in (None, case.get('known'))]
